@@ -385,3 +385,121 @@ def disconnect_path_iterates_snapshots(ctx):
                       'connection adds a key, the loop raises RuntimeError and the rest of the clean-up (log levels off, removal from the active set) is skipped', f)
     if not n:
         raise AnchorMissing('no loop over the subscription tables on the disconnect path', violation=f'{D}.reset_connection:discards from every container activate adds to')
+
+
+@rule('C08.R5b', min_instances=3)
+def scope_refusals_have_the_right_polarity(ctx):
+    """handle_activate / handle_deactivate: a request with data is refused (ProtocolError), an unknown or unexported module is
+    refused (NoSuchModule), a name that is not a parameter is refused (NoSuchParameter) - for each test the side on which the
+    refusing condition holds always raises and the registration / snapshot lies on the other side"""
+    m = ctx.m
+    for f in (_act(m), m.method(D, 'handle_deactivate', inherited=False)):
+        ctx.analysed(f)
+        cfg = CFG(f.node, m, f.module)
+        regs = {i for c in calls_in(f.node) if call_attr(c) in ('subscribe', 'unsubscribe', 'add', 'discard') for i in cfg.node_of(c)}
+        for t in cfg.nodes:
+            if t.kind != 'test':
+                continue
+            a = t.ast
+            neg = False
+            core = a
+            while isinstance(core, ast.UnaryOp) and isinstance(core.op, ast.Not):
+                neg = not neg
+                core = core.operand
+            refuse_true = None      # truth value of `core` on which the request must be refused
+            what = None
+            if isinstance(core, ast.Name) and core.id == 'data':
+                refuse_true, what = True, 'a request with data'
+            for l, op, r in compare_ops(core):
+                if op in ('in', 'notin') and r.endswith('secnode.export'):
+                    refuse_true, what = (op == 'notin'), 'an unknown / unexported module'
+            if isinstance(core, ast.BoolOp) and isinstance(core.op, ast.And):
+                for v in core.values:
+                    for l, op, r in compare_ops(v):
+                        if op in ('in', 'notin') and r.endswith('.parameters'):
+                            refuse_true, what = (op == 'notin'), 'a name that is not a parameter'
+            else:
+                for l, op, r in compare_ops(core):
+                    if op in ('in', 'notin') and r.endswith('.parameters'):
+                        refuse_true, what = (op == 'notin'), 'a name that is not a parameter'
+            if refuse_true is None:
+                continue
+            side = 'T' if (refuse_true != neg) else 'F'
+            other = 'F' if side == 'T' else 'T'
+            ok = side_never_completes(cfg, t.id, side) and bool(regs & cfg.reach([t.id], labels={other}, avoid=[t.id]))
+            ctx.check(ok, f'{f.qualname}:{what} is refused', a, f'`{src(a)}`: the refusing side raises, the registration lies on the other side',
+                      f'`{src(a)}`: {what} is not refused on the side where the condition holds (or legitimate requests are): the scope boundaries of '
+                      '(de)activation no longer match the request', f)
+
+
+@rule('C08.R3f', min_instances=2)
+def unsubscribe_removes_exactly_the_scope(ctx):
+    """unsubscribe(conn, name): the connection is discarded from the entry of exactly `name`, and - only when `name` is a
+    module (no ':' in it) - from the entries `name:<parameter>`; with the polarity of both tests"""
+    m = ctx.m
+    f = m.method(D, 'unsubscribe', inherited=False)
+    ctx.analysed(f)
+    cfg = CFG(f.node, m, f.module)
+    ev = f.node.args.args[2].arg
+    exact = [c for c in calls_in(f.node) if call_attr(c) in ('discard', 'remove') and
+             (src(c.func.value) in (f'self._subscriptions[{ev}]', f'self._subscriptions.get({ev})') or
+              f'self._subscriptions.get({ev}' in src(c.func.value))]
+    ok = bool(exact)
+    for c in exact:
+        ids = set(cfg.node_of(c))
+        for a in [x for x in ancestors(c) if isinstance(x, ast.If)]:
+            # allowed guard: membership of the key (positive side)
+            tn = cfg.ids(a.test)
+            for l, op, r in compare_ops(a.test):
+                if r == 'self._subscriptions' and l == ev:
+                    side = 'T' if op == 'in' else 'F'
+                    ok = ok and all(ids <= cfg.reach([i], labels={side}, avoid=[i]) for i in tn)
+    ctx.check(ok, f'{f.qualname}:the entry of the name itself is discarded', f.node, f'self._subscriptions[{ev}].discard(conn) when the key exists',
+              'the connection is not discarded from the entry of the deactivated name itself (or only when the key is absent): after `deactivate mod:par` '
+              'the updates of mod:par keep coming', f)
+    for loop in [x for x in body_walk(f.node) if isinstance(x, ast.For) and '_subscriptions' in src(x.iter)]:
+        guards = [a for a in ancestors(loop) if isinstance(a, ast.If)]
+        colon = [(a, l, op, r) for a in guards for l, op, r in compare_ops(a.test) if l == "':'" and r == ev and op in ('in', 'notin')]
+        okp = bool(colon)
+        for a, l, op, r in colon:
+            side = 'T' if op == 'notin' else 'F'
+            okp = okp and all(set(cfg.ids(loop)) <= cfg.reach([i], labels={side}, avoid=[i]) for i in cfg.ids(a.test))
+        ctx.check(okp, f'{f.qualname}:parameter entries are swept only for a module name', loop, "guarded by `':' not in name`",
+                  "the sweep over `<name>:...` entries does not run exactly when the name is a module name: deactivating a module leaves its parameter scopes "
+                  'active (or deactivating one parameter sweeps others)', f)
+        for c in [c for c in calls_in(loop) if call_attr(c) == 'startswith']:
+            t = next((a for a in ancestors(c) if isinstance(a, ast.If)), None)
+            if t is None:
+                continue
+            neg = isinstance(t.test, ast.UnaryOp) and isinstance(t.test.op, ast.Not)
+            disc = {i for d in calls_in(loop) if call_attr(d) in ('discard', 'remove') for i in cfg.node_of(d)}
+            side = 'F' if neg else 'T'
+            okd = bool(disc) and all(disc <= cfg.reach([i], labels={side}, avoid=[i]) for i in cfg.ids(t.test))
+            ctx.check(okd, f'{f.qualname}:matching entries are the ones discarded', t.test, 'discard on the matching side of startswith',
+                      f'`{src(t.test)}`: the connection is discarded from the entries that do NOT belong to the module', f)
+
+
+@rule('C08.R4b', min_instances=2)
+def listeners_by_module_name(ctx):
+    """broadcast_event: the module subscribers are looked up under the part of the specifier BEFORE the ':' and the
+    all-connections list is used only for `reallyall`"""
+    m = ctx.m
+    f = m.method(D, 'broadcast_event', inherited=False)
+    ctx.analysed(f)
+    cfg = CFG(f.node, m, f.module)
+    keys = [n for n in body_walk(f.node) if isinstance(n, ast.Subscript) and isinstance(n.value, ast.Call) and call_attr(n.value) == 'split'
+            and "':'" in src(n.value)]
+    for k in keys:
+        ctx.check(isinstance(k.slice, ast.Constant) and k.slice.value == 0, f'{f.qualname}:module key is the part before the colon', k, f'`{src(k)}`',
+                  f'`{src(k)}` takes the parameter part: module-wide activations never match an update', f)
+    if not keys:
+        ctx.undecided(f'{f.qualname}:module key is the part before the colon', f.node, 'split of the specifier not found', f)
+    tests = [t for t in cfg.nodes if t.kind == 'test' and src(t.ast).replace('not ', '') == 'reallyall']
+    for t in tests:
+        neg = src(t.ast).startswith('not ')
+        allc = {i for n in body_walk(f.node) if isinstance(n, ast.Assign) and src(n.value) == 'self._connections' for i in cfg.node_of(n)}
+        side = 'F' if neg else 'T'
+        ctx.check(bool(allc) and all(allc <= cfg.reach([t.id], labels={side}, avoid=[t.id]) for _ in [0]) and
+                  not (allc & cfg.reach([t.id], labels={'T' if side == 'F' else 'F'}, avoid=[t.id])),
+                  f'{f.qualname}:all connections only for reallyall', t.ast, 'self._connections is used on the reallyall side only',
+                  'ordinary updates go to every connection (activated or not) / reallyall messages only to subscribers', f)
